@@ -8,6 +8,7 @@ import (
 
 	conformancev1 "connectrpc.com/conformance/internal/gen/proto/go/connectrpc/conformance/v1"
 	"connectrpc.com/conformance/internal/verifkit"
+	"google.golang.org/protobuf/proto"
 	"pgregory.net/rapid"
 )
 
@@ -17,6 +18,9 @@ type vfC20RawCase struct {
 	Compression int32  `json:"compression"`
 	Kind        string `json:"kind"` // binary, text
 	Payload     []byte `json:"payload"`
+	// Stream: the payload is an item of a raw stream body ("computed": the envelope length is computed, "explicit": the
+	// item states a length of its own) instead of a unary body
+	Stream string `json:"stream,omitempty"`
 }
 
 var vfC20Names = map[conformancev1.Compression]string{
@@ -34,7 +38,20 @@ func vfC20RawCheck(c vfC20RawCase) error {
 		mc.Data = &conformancev1.MessageContents_Binary{Binary: c.Payload}
 	}
 	var buf bytes.Buffer
-	if err := WriteRawMessageContents(mc, &buf); err != nil {
+	if c.Stream != "" {
+		item := &conformancev1.StreamContents_StreamItem{Flags: 1, Payload: mc}
+		if c.Stream == "explicit" {
+			item.Length = proto.Uint32(uint32(len(c.Payload)) + 3) // (a stated length need not be the real one)
+		}
+		var sb bytes.Buffer
+		if err := WriteRawStreamContents(&conformancev1.StreamContents{Items: []*conformancev1.StreamContents_StreamItem{item}}, &sb); err != nil {
+			return verifkit.Violf("raw-payload-error", "WriteRawStreamContents(%v, %d bytes, %s length): %v", mc.Compression, len(c.Payload), c.Stream, err)
+		}
+		if sb.Len() < 5 {
+			return verifkit.Violf("raw-payload-error", "stream item of %d bytes written as %d bytes", len(c.Payload), sb.Len())
+		}
+		buf.Write(sb.Bytes()[5:]) // what follows the envelope prefix is the item's payload in the stated compression
+	} else if err := WriteRawMessageContents(mc, &buf); err != nil {
 		return verifkit.Violf("raw-payload-error", "WriteRawMessageContents(%v, %d bytes): %v", mc.Compression, len(c.Payload), err)
 	}
 	name := vfC20Names[mc.Compression]
@@ -51,7 +68,8 @@ func vfC20RawCheck(c vfC20RawCase) error {
 func TestVerifC20RawPayload(t *testing.T) {
 	verifkit.Run(t, "C20RawPayload", verifkit.Spec[vfC20RawCase]{
 		Gen: func(t *rapid.T) vfC20RawCase {
-			c := vfC20RawCase{Compression: int32(rapid.IntRange(0, 6).Draw(t, "compression")), Kind: rapid.SampledFrom([]string{"binary", "text"}).Draw(t, "kind")}
+			c := vfC20RawCase{Compression: int32(rapid.IntRange(0, 6).Draw(t, "compression")), Kind: rapid.SampledFrom([]string{"binary", "text"}).Draw(t, "kind"),
+				Stream: rapid.SampledFrom([]string{"", "", "computed", "explicit"}).Draw(t, "stream")}
 			switch rapid.IntRange(0, 3).Draw(t, "size") {
 			case 0:
 				c.Payload = []byte{}
@@ -67,6 +85,9 @@ func TestVerifC20RawPayload(t *testing.T) {
 			cl := []string{vfC20Names[conformancev1.Compression(c.Compression)], c.Kind}
 			if len(c.Payload) == 0 {
 				cl = append(cl, "empty")
+			}
+			if c.Stream != "" {
+				cl = append(cl, "stream-item-"+c.Stream+"-length")
 			}
 			return cl, c.Compression > 1
 		},
